@@ -217,7 +217,21 @@ def yaml_rows():
         d = dict(base)
         d.update(kw)
         return d
-    return [
+    gen = []
+    ok = ["(float *x +rank(1), int n +implied(size(x)))", "(double *x +rank(1), int n +implied(size(x)))",
+          "(int *x +rank(1), int n +implied(size(x)))"]
+    bad = {"unknown-argument": "int n +implied(size(nosuch))", "too-many-arguments": "int n +implied(size(x,1,2))"}
+
+    def gdecl(entries):
+        return lib(declarations=[{"decl": "void g(double *x +rank(1), int n +implied(size(x)))",
+                                  "fortran_generic": [{"decl": e} for e in entries]}])
+    gen.append(("generic-implied:legal", gdecl(ok)))
+    for k in range(3):
+        for w, txt in bad.items():
+            es = list(ok)
+            es[k] = es[k].replace("int n +implied(size(x))", txt)
+            gen.append(("generic-implied:%s:entry%d" % (w, k + 1), gdecl(es)))
+    return gen + [
         ("minimal", lib(declarations=[f])),
         ("empty-block", lib(declarations=[{"block": True, "declarations": [f]}, {"block": True}])),
         ("class-with-method", lib(declarations=[{"decl": "class C", "declarations": [{"decl": "void m()"}]}])),
